@@ -81,3 +81,41 @@ func c01R8(h H) {
 	}
 	r.Check(bad == "" && n > 20, "R8", "httpserver.(*vhostTrie)/ip-literal-table", match.Pos(), "sites whose host is an IP literal are filed and found under one name, with or without brackets and port", fmt.Sprintf("%d lookups evaluated", n), bad)
 }
+
+// c01R9: a site is filed in the trie under the path prefix it was written with.  Request paths are matched byte-wise
+// against the filed prefix, and Address.Normalize lower-cases Address.Path (unless CASE_SENSITIVE_PATH): the key must
+// come from the address as written, not from the normalised path.  Address.VHost is evaluated (E10) on addresses whose
+// normalised Path differs from the written one.
+func c01R9(h H) {
+	r := h.r
+	r.Rule("R9", "sites are filed under the path they were written with, as a table (E10) of Address.VHost: for addresses with and without scheme, with port, with an upper-case letter in the path (whose normalised Path field is lower-case) the key is the written address without its scheme — host, port and path as written", 1)
+	fn := h.fn("R9", hs, "Address.VHost")
+	if fn == nil {
+		return
+	}
+	cases := []struct{ original, host, port, path, want string }{
+		{"demo.example:18080/Admin", "demo.example", "18080", "/admin", "demo.example:18080/Admin"},
+		{"http://demo.example:18080/Admin/Panel", "demo.example", "18080", "/admin/panel", "demo.example:18080/Admin/Panel"},
+		{"https://other.example/Docs", "other.example", "443", "/docs", "other.example/Docs"},
+		{"plain.example", "plain.example", "", "", "plain.example"},
+		{"http://plain.example:80/lower", "plain.example", "80", "/lower", "plain.example:80/lower"},
+	}
+	bad, n := "", 0
+	for _, c := range cases {
+		env := &absEnv{globals: map[string]*aobj{}, noFork: true, maxSteps: 20000}
+		a := astruct{map[string]aval{"Original": astr(c.original), "Scheme": astr(""), "Host": astr(c.host), "Port": astr(c.port), "Path": astr(c.path)}}
+		res, und := env.run(fn, []aval{a})
+		n++
+		got, ok := res.(astr)
+		switch {
+		case und != "":
+			bad = sprintf("address %q: undecided — %s", c.original, und)
+		case !ok || string(got) != c.want:
+			bad = sprintf("address %q (normalised path %q): filed under %s, specification says %q — request paths are matched byte-wise, a prefix in another letter case is never found", c.original, c.path, describeAval(res), c.want)
+		}
+		if bad != "" {
+			break
+		}
+	}
+	r.Check(bad == "", "R9", "httpserver.Address.VHost/key-as-written", fn.Pos(), "the trie key of a site is its address as written, without the scheme", sprintf("%d addresses evaluated", n), bad)
+}
